@@ -585,6 +585,17 @@ func snap(r *http.Request) reqSnap { return reqSnap{r.Method, r.URL.String(), en
 
 // urlGlue: results of the stdlib calls makeURLKey relies on (url.Parse and
 // ResolveReference), computed here with the standard library only.
+// shownURL: the URL as text (with SetPath: what url.URL.String makes of the value the request carries)
+func shownURL(op Op) string {
+	if op.SetPath == "" {
+		return op.URL
+	}
+	if u, err := opURL(op); err == nil {
+		return u.String()
+	}
+	return op.URL
+}
+
 func urlGlue(u *url.URL) string {
 	// the components url.Parse delivers (EscapedPath is the one stdlib call of makeURLKey on the path);
 	// dot segments, percent-encoding, case and ports are the model's business
@@ -617,7 +628,7 @@ func runHistory(t *testing.T, h *History) (lines []string) {
 	for n, op := range h.Ops {
 		switch op.Op {
 		case "req":
-			u, err := url.Parse(op.URL)
+			u, err := opURL(op)
 			glue := "bad\t-\t-\t-\t-\t-\t-"
 			if err == nil {
 				glue = urlGlue(u)
@@ -626,7 +637,7 @@ func runHistory(t *testing.T, h *History) (lines []string) {
 			if cancel == "" {
 				cancel = "-"
 			}
-			rs.emit("I\tREQ\t%d\t%d\t%s\t%s\t%s\t%s\t%s", n, op.AtNs, hx(wireMethod(op.Method)), hx(op.URL), glue, encHdrList(op.Hdr), cancel)
+			rs.emit("I\tREQ\t%d\t%d\t%s\t%s\t%s\t%s\t%s", n, op.AtNs, hx(wireMethod(op.Method)), hx(shownURL(op)), glue, encHdrList(op.Hdr), cancel)
 			// glue: the normal form of the q-value classes (Accept*, TE), which the model does not define;
 			// it is what internal.NewVaryHeaderNormalizer makes of the request's combined field value
 			for _, f := range qClassFields {
@@ -742,6 +753,9 @@ func runHistory(t *testing.T, h *History) (lines []string) {
 			if err != nil {
 				rs.emit("O\tRES\t%d\t0\t0\tbadreq\t0\t-\t-\t-", n)
 				return
+			}
+			if op.SetPath != "" {
+				req.URL.Path, req.URL.RawPath = op.SetPath, ""
 			}
 			if op.Method == "(empty)" {
 				req.Method = ""
